@@ -608,6 +608,9 @@ def gen_cases(rng, tier):
                        for _ in range(cnt)])
     for s in stacks:
         W("w-stack", s)
+    # item COUNT across the CompactSize boundary (tapscript allows up to 1000 stack items)
+    for n in (252, 253, 254, 255, 256, 300) + ((1000, 65535) if T else ()):
+        W("w-count-%d" % n if n in (252, 253, 255, 256) else "w-count-many", [bytes([i & 0xFF]) * (i % 3) for i in range(n)])
     WD = lambda cls, bs: out.append(case(cls, "witness_deser", bs))
     WD("wd-empty-input", b"")
     WD("wd-empty-stack", b"\x00")
@@ -719,3 +722,9 @@ def coq_equation(c, mr):
     if op == "script":
         args = "[" + "; ".join(coq_lit(s) for s in c["args"][0]) + "]"
     return "c13_%s %s %s = %s" % (op, hashed.get(op, ""), args, coq_result(mr))
+
+
+# ops whose answer must not depend on the concrete bytes-like type of their arguments (they agree on the pinned tree;
+# tools/bytearray_probe.py); common.py re-runs a sample of their cases with bytearray arguments
+BYTEARRAY_OPS = {'p2wsh_script_pubkey', 'p2pkh_script_sig', 'p2sh_p2wpkh_script_pubkey', 'p2sh_p2wpkh_script_sig', 'p2sh_p2wsh_script_sig', 'p2sh_p2wsh_script_pubkey', 'p2sh_script_pubkey', 'witness_deser', 'p2pk_script_sig', 'p2wpkh_script_pubkey', 'p2sh_multisig_script_sig', 'p2pkh_script_pubkey', 'null_data_script_pubkey', 'p2pk_script_pubkey', 'p2sh_script_sig', 'canonical', 'decode_script'}
+MEMORYVIEW_OPS = {'p2wpkh_script_pubkey', 'p2sh_script_sig', 'p2pkh_script_sig', 'decode_script', 'p2sh_multisig_script_sig', 'p2pkh_script_pubkey', 'p2sh_p2wpkh_script_pubkey', 'p2sh_p2wsh_script_sig', 'p2sh_script_pubkey', 'null_data_script_pubkey', 'p2pk_script_pubkey', 'p2sh_p2wsh_script_pubkey', 'p2wsh_script_pubkey', 'p2pk_script_sig', 'p2sh_p2wpkh_script_sig', 'canonical'}
